@@ -75,8 +75,8 @@ package model
 //@   props C15
 //@   ensures[copy]  result != nil && fresh(result) && result.Era == old(its.Era) && result.Lamport == old(its.Lamport) && result.CUID == old(its.CUID) && result.Delimiter == old(its.Delimiter)
 //@   ensures[next]  its.Delimiter == old(its.Delimiter) + 1 && its.Era == old(its.Era) && its.Lamport == old(its.Lamport) && its.CUID == old(its.CUID)
-//@   ensures[others] forall p *Timestamp :: p != its && old(allocated(p)) ==> p.Era == old(p.Era) && p.Lamport == old(p.Lamport) && p.CUID == old(p.CUID) && p.Delimiter == old(p.Delimiter)
-//@   modifies Timestamp.Era, Timestamp.Lamport, Timestamp.CUID, Timestamp.Delimiter
+//@   fresh
+//@   modifies Timestamp.Era @ result, Timestamp.Lamport @ result, Timestamp.CUID @ result, Timestamp.Delimiter @ result, Timestamp.Delimiter @ its, alloc
 
 // Hash is the identifier key of an element: the decimal renderings of Era, Lamport, Delimiter
 // followed by the client id (dec(n) is the engine's injective, separator-free model of %d).
@@ -84,7 +84,9 @@ package model
 //@ func (*Timestamp).Hash
 //@   mode math
 //@   props C15
-//@   ensures[format] result == tsKey(its.Era, its.Lamport, its.Delimiter, its.CUID)
+//@   uses hkeyDef
+//@   ensures-local[format] result == tsKey(its.Era, its.Lamport, its.Delimiter, its.CUID)
+//@   ensures[key]    result == hkey(its.Era, its.Lamport, its.Delimiter, its.CUID)
 //@   modifies nothing
 
 // ghost: the server sequence number (log position) under which an operation is stored
@@ -104,3 +106,14 @@ package model
 //@ apply splitColon(dec(e1), dec(e2), strcat(dec(l1), ":", dec(d1), ":", c1), strcat(dec(l2), ":", dec(d2), ":", c2))
 //@ apply splitColon(dec(l1), dec(l2), strcat(dec(d1), ":", c1), strcat(dec(d2), ":", c2))
 //@ apply splitColon(dec(d1), dec(d2), c1, c2)
+
+// hkey is Hash seen as an opaque injective function: the list and document contracts use
+// only injectivity (lemma hkeyInjective), so their proof obligations carry no string
+// arithmetic. hkeyDef is a definition (conservative), not an assumption about the code.
+//@ function hkey(era uint32, lamport uint64, delim uint32, cuid string) string
+//@ axiom hkeyDef: forall e uint32, l uint64, d uint32, c string :: hkey(e, l, d, c) == tsKey(e, l, d, c)
+//@ lemma hkeyInjective props C15 C04 using hkeyDef, tsKeyInjective: forall e1 uint32, l1 uint64, d1 uint32, c1 string, e2 uint32, l2 uint64, d2 uint32, c2 string :: hkey(e1, l1, d1, c1) == hkey(e2, l2, d2, c2) ==> e1 == e2 && l1 == l2 && d1 == d2 && c1 == c2
+//@ apply hkeyDef(e1, l1, d1, c1)
+//@ apply hkeyDef(e2, l2, d2, c2)
+//@ apply tsKeyInjective(e1, l1, d1, c1, e2, l2, d2, c2)
+//@ pred keyOf(t *Timestamp) = hkey(t.Era, t.Lamport, t.Delimiter, t.CUID)
